@@ -1870,9 +1870,11 @@ class UserActions(object):
     if changes:
       self._engine.out_actions.summary.add_changes(table_id, col_id, changes)
 
-    if not to_formula:
+    if not to_formula or (changes and not from_formula):
       # If converting to non-formula, any previously prepared calc actions should be removed from
       # calc summary and actualized now (so that they don't override subsequent changes).
+      # Likewise if a data column changes type while turning into a formula column: on undo, the
+      # data that the conversion changed can only be restored once the column has its type back.
 
       # The UNDO action needs to be inserted before the one created by ModifyColumn, so that on
       # undo, we apply ModifyColumn first (getting the correct type), then set the values of
